@@ -28,6 +28,7 @@ type c12Spec struct {
 	Backend string
 	Kind    string // race | cancel-scan | start-join
 	Sleep0  bool   // cancel-scan: RetentionSleep = 0
+	MaxKB   int    // evict: the memory store's size limit
 	When    string // start-join: cancel "at-once" | "after-scan-began"
 	Corrupt bool   // start-join: a mailbox index is unreadable, so every scan fails
 	Bound   [2]int
@@ -48,6 +49,9 @@ func c12Specs() []c12Spec {
 		{ID: "R3-mem-start-join-cancel-at-once", Backend: "mem", Kind: "start-join", When: "at-once", Bound: [2]int{2, 3}},
 		{ID: "R3-file-start-join-cancel-after-scan-began", Backend: "file", Kind: "start-join", When: "after-scan-began", Bound: [2]int{2, 3}},
 		{ID: "R4-file-failing-scan-start-join", Backend: "file", Kind: "start-join", When: "after-scan-began", Corrupt: true, Bound: [2]int{2, 3}},
+		// the scan removes the store's oldest message while a delivery makes the size limit evict
+		// that very message: both finish, the message is gone once, the new one stays
+		{ID: "R6-mem-maxkb-scan-vs-size-eviction", Backend: "mem", Kind: "evict", MaxKB: 1, Bound: [2]int{2, 3}},
 		{ID: "R1-mem-scan-deliver-remove", Backend: "mem", Kind: "race", Bound: [2]int{2, 3}},
 		{ID: "R1-file-scan-deliver-remove", Backend: "file", Kind: "race", Bound: [2]int{1, 2}},
 	}
@@ -98,12 +102,16 @@ func c12SchedScenario(c *fw.Ctx, sp c12Spec) schedScenario {
 			getID := func(k string) string { idmu.Lock(); defer idmu.Unlock(); return ids[k] }
 			var final func()
 			e = vsched.Run(cfg, func() (func(), []vsched.Thread, func()) {
-				sh = sys.NewStore(sys.StoreSpec{Backend: sp.Backend}, nil)
+				sh = sys.NewStore(sys.StoreSpec{Backend: sp.Backend, MaxKB: sp.MaxKB}, nil)
 				st := sh.Store
 				now := time.Now()
 				inInit := true
 				add := func(key, mb string, age time.Duration) {
-					id, err := st.AddMessage(sys.Delivery(mb, "f@x.test", []string{"t@x.test"}, key, "Subject: r\r\n\r\nretention "+key+"\r\n", now.Add(-age)))
+					pad := ""
+					if sp.MaxKB > 0 {
+						pad = strings.Repeat("x", 550) + "\r\n"
+					}
+					id, err := st.AddMessage(sys.Delivery(mb, "f@x.test", []string{"t@x.test"}, key, "Subject: r\r\n\r\nretention "+key+"\r\n"+pad, now.Add(-age)))
 					if err != nil {
 						if inInit {
 							panic("VERIF-INFRA add: " + err.Error())
@@ -174,6 +182,31 @@ func c12SchedScenario(c *fw.Ctx, sp c12Spec) schedScenario {
 							o = append(o, fmt.Sprintf("%s=%v", k.key, present(k.key, k.mb)))
 						}
 						outcome = strings.Join(o, " ")
+					}
+					return init, ths, func() { safely(final); cancel(); sh.Close() }
+				case "evict":
+					init := func() { add("e1", "boxa", 2*time.Hour) }
+					var scanErr error
+					scanDone := false
+					rs := storage.NewRetentionScanner(config.Storage{RetentionPeriod: time.Hour, RetentionSleep: 0}, st)
+					ths := []vsched.Thread{
+						{Name: "scanner", F: func() { scanErr = rs.DoScan(ctx); scanDone = true }},
+						{Name: "deliverer", F: func() { inInit = false; add("n1", "boxb", 0) }},
+					}
+					final = func() {
+						if !scanDone {
+							return
+						}
+						if scanErr != nil {
+							addProb("scan-error", "DoScan returned an error: "+scanErr.Error())
+						}
+						if present("e1", "boxa") {
+							addProb("expired-survived", "message e1 was expired when the scan began, yet it is still there after the scan returned")
+						}
+						if getID("n1") != "" && !present("n1", "boxb") {
+							addProb("young-removed", "message n1, delivered during the scan and fitting the size limit once e1 is gone, is not in its mailbox")
+						}
+						outcome = fmt.Sprintf("n1=%v", present("n1", "boxb"))
 					}
 					return init, ths, func() { safely(final); cancel(); sh.Close() }
 				case "cancel-scan":
